@@ -82,6 +82,24 @@ def concrete_run(code, inp):
     return trace, jitter.cpu.EAX, jitter.vm.get_mem(BUF, dseprog.BUF_LEN)
 
 
+def count_jcc(code, inp):
+    """conditional jumps executed by the plain concrete run"""
+    machine, loc_db, jitter = mkjit(code, inp)
+    from miasm.core.bin_stream import bin_stream_vm
+    mdis = machine.dis_engine(bin_stream_vm(jitter.vm), loc_db=loc_db)
+    trace, _, _ = concrete_run(code, inp)
+    n = 0
+    names = {}
+    for pc in trace:
+        if pc == RET:
+            continue
+        if pc not in names:
+            names[pc] = mdis.dis_instr(pc).name
+        if names[pc].startswith("J") and names[pc] != "JMP":
+            n += 1
+    return n
+
+
 def set_input(jitter, sp, inp):
     jitter.vm.set_mem(BUF, bytes(inp["buf"]))
     jitter.vm.set_u32(sp + 4, inp["a"])
@@ -413,6 +431,12 @@ class C41(Check):
             res.dropped["step-limit"] += 1
             return
         nt = info["sym_branches"] >= 2
+        if not nt and fails:
+            # the DSE run was cut short: fall back on the concrete run (>= 2 conditional jumps executed)
+            try:
+                nt = count_jcc(p["code"], inp) >= 2
+            except Exception:
+                nt = False
         res.case(nontrivial_key=(case["code"], repr(inp), strategy, symmode) if nt else None,
                  sample={k: case[k] for k in ("tag", "src", "opt", "input", "strategy", "sym")}
                  if nt and info["solutions"] >= 2 else None)
